@@ -22,6 +22,7 @@ import (
 	"github.com/tencent/goom/verifsim/world"
 
 	_ "github.com/tencent/goom/verifsim/worlds/hist"
+	_ "github.com/tencent/goom/verifsim/worlds/ifacew"
 	_ "github.com/tencent/goom/verifsim/worlds/stubw"
 	_ "github.com/tencent/goom/verifsim/worlds/varw"
 )
